@@ -51,7 +51,7 @@ func c05Targets() []string {
 func TestC05(t *testing.T) {
 	r := NewReporter(t)
 	defer r.Done()
-	r.Rule("(a) writing disabled: all sequences of length <= depth over 5 mutating opcodes x 10 target kinds + non-mutating opcodes; oracle = refusal code + no mutating leaf filesystem operation + whole sentinel tree unchanged. (b) writing enabled: sequences over create/write(payload sizes 0..131073, chunkings)/delete/mkdir/rmdir on every target kind; oracle = model result codes + only the named target changes + uploaded bytes equal on disk and when read back. (c) library: every write-type call on every generated/decrypting view returns EPERM and changes nothing. distinct by (mode, executed request sequence)")
+	r.Rule("(a) writing disabled: all sequences of length <= depth over 5 mutating opcodes x 10 target kinds + non-mutating opcodes; oracle = refusal code + no mutating leaf filesystem operation + whole sentinel tree unchanged. (b) writing enabled: sequences over create/write(payload sizes 0..131073, chunkings)/delete/mkdir/rmdir on every target kind; oracle = model result codes + only the named target changes + uploaded bytes equal on disk and when read back. (d) two overlapping uploads / upload with download under every interleaving with <= 1 (quick) / 2 (thorough) preemptions: stored bytes exact. (c) library: every write-type call on every generated/decrypting view returns EPERM and changes nothing. distinct by (mode, executed request sequence)")
 	cw := buildC05World(t)
 	defer cw.w.Cleanup()
 	w := cw.w
@@ -309,6 +309,36 @@ func TestC05(t *testing.T) {
 		if d := diffSnap(snap0, snapshotTree(w.Dir, "")); d != "[]" {
 			r.Violation("C05:lib:view-write-changed-tree", "write-type calls on views changed the tree: "+d, nil)
 		}
+	}
+	// ---------- (d) uploads that overlap in time ----------
+	// "stores exactly the uploaded bytes" must hold whatever else the server is transferring meanwhile: every
+	// interleaving (bounded preemptions) of two uploads, and of an upload with a download, at connection and
+	// filesystem operations
+	{
+		cw.reset()
+		pa, pb := patBytes(1, 0, 70000), patBytes(2, 0, 65537)
+		resetUp := func() {
+			os.RemoveAll(filepath.Join(w.Root, "w", "up"))
+			w.MkDir("w/up")
+		}
+		scs := []c12Scenario{
+			{name: "two-uploads", allow: true, reset: resetUp, files: map[string][]byte{"w/up/a.bin": append(append([]byte{}, pa...), []byte("tail-a")...), "w/up/b.bin": pb}, clients: [][]Req{
+				{mkReq(opCreateFile, "/w/up/a.bin"), wrReq(pa), wrReq([]byte("tail-a"))},
+				{mkReq(opCreateFile, "/w/up/b.bin"), wrReq(pb)}}},
+			{name: "upload-and-download", allow: true, reset: resetUp, files: map[string][]byte{"w/up/a.bin": pa[:3000]}, clients: [][]Req{
+				{mkReq(opCreateFile, "/w/up/a.bin"), wrReq(pa[:1000]), wrReq(pa[1000:3000])},
+				{mkReq(opOpenFile, "/ro.bin"), rdcReq(0, 3000), rdReq(5, 2000)}}},
+		}
+		bound := 1
+		if r.Thorough() {
+			bound = 2
+		}
+		for _, sc := range scs {
+			if !c12Explore(t, r, w.Root, sc, bound, "C05") {
+				return
+			}
+		}
+		os.RemoveAll(filepath.Join(w.Root, "w", "up"))
 	}
 	r.Assume("snapshot compares names, kinds, sizes, mtimes and content hashes of the whole sentinel directory (root and its surroundings)")
 }
